@@ -69,7 +69,7 @@ pub fn huge_amounts(run: &Run, thorough: bool) {
 /// A user-created pool whose whole liquidity sits in three wallet coins of uneven size, with uneven reserves (a swap went through):
 /// every block of up to three withdrawals is explored, among them the ones that together redeem 100% - each request gets its
 /// pro-rata share rounded down, whoever comes last.
-fn user_pool_emptied_by_several_withdrawals(run: &Run, thorough: bool) {
+pub fn user_pool_emptied_by_several_withdrawals(run: &Run, thorough: bool) {
     use crate::stf::*;
     use crate::world::*;
     use melstructs::{Denom, PoolKey, TxKind};
